@@ -52,6 +52,16 @@ func (m *Mint) checkInvoicePaid(ctx context.Context, quoteId string) {
 	select {
 	case invoice := <-updateChan:
 		if invoice.Settled {
+			// the quote may have moved on since the subscription started (polled, or already
+			// issued): only an UNPAID quote becomes PAID
+			currentQuote, err := m.db.GetMintQuote(quoteId)
+			if err != nil {
+				m.logErrorf("could not get mint quote '%v' from db: %v", quoteId, err)
+				return
+			}
+			if currentQuote.State != nut04.Unpaid {
+				return
+			}
 			m.logInfof("received update from invoice sub. Invoice for mint quote '%v' is PAID", mintQuote.Id)
 			mintQuote.State = nut04.Paid
 			if err := m.db.UpdateMintQuoteState(mintQuote.Id, mintQuote.State); err != nil {
